@@ -1038,6 +1038,37 @@ func (c *Ctx) r119() {
 			return true
 		})
 		c.R.Check(took && esc, rule, fmt.Sprintf("html.Minifier.Minify/embedded call#%d result has its ampersands escaped", n), c.pos(ifs), "through a function that writes amp;", "the minified code is written into the attribute as it is: an `&` in front of a name (`a&&lt` with a variable lt, `a&copy`) is read back as a character reference by the browser")
+		// … on every path: a value taken over without the escaper does not leave the success branch unescaped (the minifier
+		// creates ampersands the source did not have: `if(ok)copy()` → `ok&&copy()`)
+		if took && esc {
+			g := c.graph(pk, fd)
+			isEscAssign := func(y *flow.Node) bool {
+				a2, ok := y.Stmt.(*ast.AssignStmt)
+				if y.Kind != flow.KStmt || !ok || len(a2.Lhs) != 1 || len(a2.Rhs) != 1 || str(a2.Lhs[0]) != "val" {
+					return false
+				}
+				ce, ok := ast.Unparen(a2.Rhs[0]).(*ast.CallExpr)
+				return ok && bodyHas(ce, writesAmp)
+			}
+			var from []*flow.Node
+			for _, y := range g.Nodes {
+				a2, ok := y.Stmt.(*ast.AssignStmt)
+				if y.Kind != flow.KStmt || !ok || a2.Pos() < ifs.Body.Pos() || a2.End() > ifs.Body.End() {
+					continue
+				}
+				if len(a2.Lhs) == 1 && str(a2.Lhs[0]) == "val" && !isEscAssign(y) {
+					from = append(from, y)
+				}
+			}
+			if len(from) > 0 {
+				p := g.Path(flow.Search{From: from, Goal: func(y *flow.Node) bool {
+					a := y.Ast()
+					return y.Kind == flow.KExit || a != nil && (a.Pos() < ifs.Pos() || a.Pos() >= ifs.End())
+				}, Avoid: isEscAssign})
+				c.R.Check(p == nil, rule, fmt.Sprintf("html.Minifier.Minify/embedded call#%d result has its ampersands escaped on every path", n), c.pos(ifs), "no path from the take-over of the buffer leaves the success branch without the escaper",
+					"the escaper is skipped on a path: "+pathStr(c, g, p)+" — the minifier creates ampersands the source did not have (`onclick=\"if (ok) copy()\"` → `ok&&copy()`, which the browser reads as `ok&©()`)")
+			}
+		}
 		return true
 	})
 	c.R.Floor(rule, "embedded calls on attribute values", n, 2)
